@@ -28,9 +28,9 @@ func init() {
 			ruleDurationUnits(r, "K13", "/iscp", "/wire")
 			ruleC15K14(r)
 			r.borrow("C07", func() { ruleC07R6(r, newLockEngine(r.P)) }) // a stalled chunk write under the table lock stops the ack router and, behind it, the Pong
-			r.borrow("C06", func() { ruleC06R8(r) }) // a broker ping is never dropped by the demultiplexer
-			r.borrow("C07", func() { ruleC07R2(r) }) // per-alias delivery never blocks the reader that also routes pongs
-			r.borrow("C06", func() { ruleC06R5(r) }) // a request pending when keepalive gives the connection up is released (it may hold the mutex the redial needs)
+			r.borrow("C06", func() { ruleC06R8(r) })                     // a broker ping is never dropped by the demultiplexer
+			r.borrow("C07", func() { ruleC07R2(r) })                     // per-alias delivery never blocks the reader that also routes pongs
+			r.borrow("C06", func() { ruleC06R5(r) })                     // a request pending when keepalive gives the connection up is released (it may hold the mutex the redial needs)
 			ruleLoopDrivers(r, "K8", "the keep-alive stays periodic: in package wire every receive inside a loop from a time source is a Ticker, a time.After, or a Timer that is re-armed inside the loop when its branch continues the loop", func(fn *ssa.Function) bool { return fnPkgPath(fn) == modPath+"/wire" }, 1)
 			r.Begin("K6", "pongs are routed without blocking: the reply table the pong is delivered through holds only channels of capacity >= 1 (a reply abandoned by its caller must not stall the router, or live pongs pile up and a live broker is dropped)", 1)
 			chanCapRule(r, "/wire.ClientConn.replyCh", 1)
@@ -265,10 +265,21 @@ func ruleC15K2(r *Run) {
 		name := fnName(sp)
 		ok := false
 		detail := "no context.WithTimeout in sendPing"
-		for _, c := range findCalls(sp, false, "context.WithTimeout") {
+		for _, c := range findCalls(sp, false, "context.WithTimeout", "context.WithDeadline") {
 			args := instrCall(c).Args
 			pl := p.Leaves(args[0], provOpts{})
-			dl := p.Leaves(args[1], provOpts{})
+			// (WithDeadline: the deadline is a time plus the timeout, computed here or by the caller; whether that time
+			// is the moment the ping is sent is not decided)
+			dl := p.Leaves(args[1], provOpts{ParamDepth: 2})
+			if isCallNamed(c, "context.WithDeadline") {
+				var keep []string
+				for _, x := range dl {
+					if !strings.HasPrefix(x, "call:time.") && !strings.HasPrefix(x, "recv") && !strings.HasPrefix(x, "field:time.") && !strings.HasPrefix(x, "elem:") && !strings.Contains(x, "Ticker") {
+						keep = append(keep, x)
+					}
+				}
+				dl = keep
+			}
 			okParent := hasLeaf(pl, "field:/wire.ClientConn.ctx")
 			okDur := hasLeaf(dl, "field:/wire.ClientConn.pingTimeout") && len(leavesWithin(dl, []string{"field:/wire.ClientConn.pingTimeout", "param:*"})) == 0
 			// and the derived context is the one handed to sendRequest
